@@ -114,6 +114,16 @@ impl Set {
     }
 }
 
+impl Drop for Set {
+    fn drop(&mut self) {
+        // See `Thread::drop`: values still alive when an iteration panics are
+        // leaked rather than dropped outside of the model.
+        if std::thread::panicking() {
+            std::mem::forget(self.statics.take());
+        }
+    }
+}
+
 impl StaticKeyId {
     fn new<T>(key: &'static crate::lazy_static::Lazy<T>) -> Self {
         Self(key as *const _ as usize)
